@@ -72,10 +72,17 @@ def gen_plan(ch: Chooser, tier: str) -> dict[str, Any]:
         if not any(a['do'] == 'delete' and a.get('name') == name for a in plan['actions']):
             plan['actions'].append({'t': round(ch.float(3.0, plan['horizon']), 6), 'do': 'delete', 'name': name})
         plan['actions'].sort(key=lambda a: a['t'])
+        retried = ch.bool(0.6)
         for hid in del_hids:
-            triggers.append({'on': {'what': ch.choice(['h+', 'h-']), 'hid': hid, 'name': name},
+            on: dict[str, Any] = {'what': ch.choice(['h+', 'h-']), 'hid': hid, 'name': name}
+            if retried:
+                # ... in its last attempt, after an earlier one has left a progress record to be purged
+                next(h for h in op['handlers'] if h['id'] == hid)['script'] = [
+                    {'do': 'temp', 'dur': 0.1, 'delay': ch.choice([0.2, 0.5])}, {'do': 'ok', 'dur': ch.choice([0.3, 0.8])}]
+                on = {'what': 'h+', 'hid': hid, 'name': name, 'n': 1}
+            triggers.append({'on': on,
                              'actions': [{'do': 'edit', 'edit': 'remove-finalizer', 'name': name, 'actor': 'controller',
-                                          'value': 'other.example.com/first', 'delay': ch.choice([0.0, 0.0005, 0.002])}]})
+                                          'value': 'other.example.com/first', 'delay': ch.choice([0.0, 0.0005, 0.002, 0.1])}]})
         # ... and is released at last, whatever happened
         for k_, fin_ in enumerate(('other.example.com/first', 'other.example.com/last')):
             plan['actions'].append({'t': round(plan['horizon'] + 5.0 + k_, 6), 'do': 'edit', 'edit': 'remove-finalizer',
